@@ -35,5 +35,14 @@ def result (buf : Serve.Buf) (r : Option Serve.Buf) : Bool × Serve.Buf :=
   | some b => (true, b)
   | none => (false, buf)
 
+/-- `newInternalConfig(cfg)` for a `*Config` that may be nil: `(nil, nil)` for nil, otherwise the internal configuration or the error. -/
+def newInternalConfig (ext : Ext) (cfg : Option Config) : Option ICfg × Option Err :=
+  match cfg with
+  | none => (none, none)
+  | some c =>
+    match Cors.newInternalConfig ext c with
+    | .ok i => (some i, none)
+    | .error e => (none, some e)
+
 end GoRt
 end Cors
